@@ -2,6 +2,7 @@
 options.
 """
 
+import codecs
 import os
 import typing
 import typing as t
@@ -1615,7 +1616,18 @@ class TemplateStream:
 
         try:
             if encoding is not None:
-                iterable = (x.encode(encoding, errors) for x in self)  # type: ignore
+                # Encode incrementally: a stateful codec (utf-16, utf-8-sig,
+                # ...) must emit its BOM / shift state once for the whole
+                # stream, not once per item.
+                encoder = codecs.getincrementalencoder(encoding)(errors)  # type: ignore
+
+                def encoded() -> t.Iterator[bytes]:
+                    for x in self:
+                        yield encoder.encode(x)
+
+                    yield encoder.encode("", final=True)
+
+                iterable = encoded()  # type: ignore
             else:
                 iterable = self  # type: ignore
 
